@@ -382,6 +382,9 @@ def run_forked(fn, result_path, timeout=120):
     if pid == 0:
         rc = 0
         try:
+            import signal
+            signal.signal(signal.SIGALRM, signal.SIG_DFL)
+            signal.alarm(int(timeout))          # a hanging scenario kills itself; the parent reports "timeout"
             devnull = os.open(os.devnull, os.O_WRONLY)
             os.dup2(devnull, 1)
             if not os.environ.get("FAULTFS_DEBUG"):
@@ -400,18 +403,10 @@ def run_forked(fn, result_path, timeout=120):
         finally:
             os._exit(rc)
     # parent
-    import time
-    t0 = time.time()
-    while True:
-        wpid, status = os.waitpid(pid, os.WNOHANG)
-        if wpid == pid:
-            break
-        if time.time() - t0 > timeout:
-            os.kill(pid, 9)
-            os.waitpid(pid, 0)
-            return "timeout", None
-        time.sleep(0.002)
+    _, status = os.waitpid(pid, 0)
     rc = os.waitstatus_to_exitcode(status)
+    if rc == -14:
+        return "timeout", None
     if rc == DEATH_RC:
         return "died", None
     if rc == 0 and os.path.exists(result_path):
